@@ -98,9 +98,9 @@ func cmdCheck(args []string) {
 			fatal("known_findings.json: %v", err)
 		}
 	}
-	timeout := 60
+	timeout := 120 // CPU seconds per solver run; the slowest proofs need about 25 s on an idle machine
 	if *tier == "thorough" {
-		timeout = 240
+		timeout = 300
 		if cfg.ThoroughTimeout > 0 {
 			timeout = cfg.ThoroughTimeout
 		}
